@@ -32,7 +32,10 @@ def make_dims(fd, rng, ndim=None, allow_untyped_int=True, need_multi=True):
             if len(items) > 1:
                 k = int(rng.integers(2, len(items) + 1))
                 items = list(items[:k]) if rng.random() < 0.5 else [items[j] for j in sorted(rng.choice(len(items), size=k, replace=False).tolist())]
-            spec.append((l, n, list(items), dt))
+            items = list(items)
+            if len(items) > 1 and rng.random() < 0.5:
+                items = [items[j] for j in rng.permutation(len(items))]  # item order is arbitrary (e.g. years not ascending)
+            spec.append((l, n, items, dt))
         if not need_multi or any(len(s[2]) > 1 for s in spec):
             break
     dims = fd.DimensionSet(dim_list=[fd.Dimension(letter=l, name=n, items=list(it), **({"dtype": dt} if dt is not None else {})) for l, n, it, dt in spec])
